@@ -324,17 +324,15 @@ def __deepcopy__(self, memo):
     ("core/reaction.py", "Reaction", "copy"): '''
 def copy(self):
     model = self._model
+    owners = [(i, i._model) for i in self._metabolites]
+    owners += [(i, i._model) for i in self._genes]
     self._model = None
-    for i in self._metabolites:
-        i._model = None
-    for i in self._genes:
+    for i, _ in owners:
         i._model = None
     new_reaction = deepcopy(self)
     self._model = model
-    for i in self._metabolites:
-        i._model = model
-    for i in self._genes:
-        i._model = model
+    for i, owner in owners:
+        i._model = owner
     return new_reaction
 ''',
     ("core/reaction.py", "Reaction", "__mul__"): '''
